@@ -52,8 +52,8 @@ def swapCofactor (u : Int) (y : Nat) : M (Nat × Int × Int) := do
 
 def setNode (u : Nat) (n : Nd) : M Unit := do
   let m ← M.get
-  M.assert (!m.pred.contains n)
-  M.set { m with tbl := { m.tbl with succ := m.tbl.succ.insert u n }, pred := m.pred.insert n u }
+  M.assert (!m.pred.contains n.key)
+  M.set { m with tbl := { m.tbl with succ := m.tbl.succ.insert u n }, pred := m.pred.insert n.key u }
 
 /-- first loop of `swap`: pop the unique-table entries of one level -/
 def popLevel (j : Nat) : List Nat → M (List (Nat × Int × Int))
@@ -62,8 +62,8 @@ def popLevel (j : Nat) : List Nat → M (List (Nat × Int × Int))
     let m ← M.get
     let n ← M.ofOption .key (m.tbl.succ[u]?)
     M.assert (n.lvl = j)
-    let u' ← M.ofOption .key (m.pred[n]?)
-    M.modify fun m => { m with pred := m.pred.erase n }
+    let u' ← M.ofOption .key (m.pred[n.key]?)
+    M.modify fun m => { m with pred := m.pred.erase n.key }
     M.assert (u = u')
     let r ← popLevel j rest
     return (u, n.lo, n.hi) :: r
